@@ -62,3 +62,12 @@ Fixpoint session (max_depth : Z) (runs : list test_run) (records : list msg) : l
   end.
 
 Definition was_cut (t : test_run) : bool := negb (Nat.eqb (tr_cuts t) 0).
+
+(* ------------------------------------------------------------------ one SEVM, several transactions *)
+
+(* run_test drives ONE SEVM over every frontier state (one run_message per state) and reads
+   sevm.logs.bounded_loops once, after the last.  states = for each executed state, `this transaction cut a loop`.
+   Result: is the list non-empty when it is read. *)
+Definition sevm_logs_after (states : list bool) : bool :=
+  fold_left (fun acc b => if run_message_resets_logs then b else acc || b) states false.
+
